@@ -242,14 +242,17 @@ def rule_registry_read_only(ctx, rid="R18.5"):
     V = calls.V
     reach |= calls.reachable([V.methods["__init__"], find_method(prog, "validators.RefResolver", "__init__")])
     r = ctx.rule(rid, "the only registry read on the validation path is the resolver constructor copying entries into its own store", floor=1)
+    ctor = find_method(prog, "validators.RefResolver", "__init__")
+    ctor_steps = calls.with_private_helpers({ctor})
     for f in sorted(reach, key=lambda x: x.qual):
         for n in walk_body(f):
             if isinstance(n, ast.Name) and n.id in ("meta_schemas", "validators") and isinstance(n.ctx, ast.Load):
                 res = prog.resolve_name(f.mod, n.id, f)
                 if isinstance(res, tuple) and res[0] == "expr" and res[1].name == "validators" and n.id not in f.all_params and not any(
                         n.id in o.all_params for o in calls._outers(f)):
-                    if f.qual == "validators.RefResolver.__init__":
-                        r.ok(site(f, n), "copies registry entries into the per-resolver store")
+                    if f in ctor_steps:
+                        r.ok(site(f, n), "copies registry entries into the per-resolver store%s" % (
+                            "" if f is ctor else " (a private step of the resolver constructor: called from nowhere else)"))
                     else:
                         r.fail("%s|registry-read|%s" % (f.qual, n.id), site(f, n), "validation-reachable code consults the global registry %s" % n.id)
     return r
